@@ -110,6 +110,14 @@ def s_eq(p, a, b):
     """a == b for str-like values: bool or z3 Bool."""
     a, b = lift_str(a), lift_str(b)
     if a.has_render() or b.has_render():
+        for x, y in ((a, b), (b, a)):
+            if len(x.cs) == 1 and isinstance(x.cs[0], Render) and y.is_concrete():
+                # str(n) == "text": only the canonical rendering of one integer can match
+                text = "".join(chr(c) for c in y.cs)
+                import re as _re
+                if _re.fullmatch(r"-?(0|[1-9][0-9]*)", text) is None or text == "-0":
+                    return False
+                return _and([_lit(x.cs[0].n) == int(text)])
         if aligned(a, b):
             conj = []
             for x, y in zip(a.cs, b.cs):
@@ -345,6 +353,8 @@ def s_endswith(p, s, suf):
 
 
 def s_isdigit(p, s):
+    if len(s.cs) == 1 and isinstance(s.cs[0], Render):
+        return mk_bool(_lit(s.cs[0].n) >= 0)  # str(n) is all ASCII digits iff n >= 0
     if s.has_render():
         s = expand(p, s)
     if not s.cs:
